@@ -63,6 +63,15 @@ def systematic_blocks():
             b_plain = cross([1, 3], [1], [K("MinimumTrials", k=4)])
         out.append(case(F, rep(b_in, [K("MinimumTrials", k=8)]), "C", ["Repeat", "inner", name], "blk-rep-in-%s" % name))
         out.append(case(F, rep(b_plain, [K("MinimumTrials", k=8), k]), "C", ["Repeat", "outer", name], "blk-rep-out-%s" % name))
+    # --- trailing partial repetition (MinimumTrials not a multiple of the inner length) under run-length constraints:
+    #     the last window is shorter than the others, down to shorter than k
+    for m in (5, 6, 7):
+        for name, k in placements(1, 3)[:4]:
+            out.append(case(F, rep(cross([1, 2], [1, 2], [k]), [K("MinimumTrials", k=m)]), "C",
+                            ["Repeat", "partial-last", "inner", name], "blk-rep-part%d-in-%s" % (m, name)))
+    for name, k in placements(1, 3)[:4]:
+        out.append(case(F, rep(cross([1, 2], [1, 2]), [K("MinimumTrials", k=6), k]), "C",
+                        ["Repeat", "partial-last", "outer", name], "blk-rep-part6-out-%s" % name))
     # --- Repeat with a preamble (crossed transition): windows overlap by the preamble
     pre_in = cross([1, 4], [1, 4], [K("AtMostKInARow", k=2, f=1, l=1)])
     pre_plain = cross([1, 4], [1, 4], [])
@@ -93,6 +102,14 @@ def systematic_blocks():
         out.append(case(F, merge([b1, b2], [], mode, "equal"), "C", ["Merge", mode, "inner", "AtMost1"], "blk-merge-%s-in" % mode))
         out.append(case(F, merge([cross([1, 2], [1, 2]), b2], [K("AtMostKInARow", k=1, f=1, l=1)], mode, "equal"), "C",
                         ["Merge", mode, "outer", "AtMost1"], "blk-merge-%s-out" % mode))
+    # --- Merge where the SHORTER block (repeated / weighted to the common length) carries a window-scoped constraint
+    F6 = [basic("a", 4), basic("b", 2), basic("c", 2)]
+    long_b = cross([1], [1], [])                           # 4 trials
+    for mode in ("repeat", "weight"):
+        for name, k in placements(3, 3):
+            short_b = cross([3], [3], [k])                 # 2 trials
+            out.append(case(F6, merge([long_b, short_b], [], mode, "equal"), "C", ["Merge", mode, "short-inner", name],
+                            "blk-merge-%s-short-%s" % (mode, name)))
     # --- Nest
     Fn = [basic("o", 3), basic("i", 2), basic("u", 2), basic("p", 2)]
     ob = cross([1], [1])
